@@ -1,23 +1,17 @@
-"""Per-property metadata used to generate MANIFEST.json (bin/gen_manifest)."""
-CHECKS = {}
+"""Collects per-property META dicts (harness/checks/cNN.py) for bin/gen_manifest."""
+import importlib, pkgutil, os
+
+# properties not claimed, with the reason (kept current by hand)
 NOT_APPLICABLE = {}
 
 
-def check(pid, **kw):
-    CHECKS[pid] = kw
-
-
-check("C18",
-      category="model_checking",
-      technique="TLA+ refinement model (DynArray.tla: implementation-shaped buffer/index model vs Python list) checked "
-                "exhaustively by TLC; every model transition replayed into the real class and every recorded run "
-                "validated by TLC against the list model (TraceDynArray.tla)",
-      text="TLC proves, for every operation sequence up to the stated depth over buckets 2-4 with and without drop-oldest, "
-           "that the implementation-shaped model returns exactly what Python list semantics returns for every read and "
-           "that no list-valid operation raises. The binding to the code is two-way: each transition of that state graph "
-           "is executed on the real DynamicNumpyArray along a shortest witness, and these runs plus long random sequences "
-           "are accepted or rejected by TLC against the list model alone (all int indices, slice bound pairs around the "
-           "length incl. None, get_past_item). Bounded, not a proof for unbounded lengths.",
-      note="Trusted: TLC, the JSON encoder, the 60-line driver that calls the public methods. delete() driven with "
-           "0<=index<len, axis=0; 1-column rows with small integer values; no slice steps.",
-      design_ref="4/C18")
+def collect():
+    checks = {}
+    d = os.path.join(os.path.dirname(os.path.abspath(__file__)), "checks")
+    for m in sorted(pkgutil.iter_modules([d])):
+        if not m.name.startswith("c") or not m.name[1:].isdigit():
+            continue
+        mod = importlib.import_module("harness.checks." + m.name)
+        if getattr(mod, "META", None) and not mod.META.get("disabled"):
+            checks[m.name.upper()] = mod.META
+    return checks
